@@ -453,7 +453,17 @@ def run(ctx):
             try:
                 n, d, poly = ref_dict(c['t'])
                 want = [frac_str(d_eval(d, chi_poly([F(v) for v in col]))) for col in c['cols']]
-                if want != io['matrix']:
+                # float64 evaluation is exact only while every term stays below 2^53; beyond that (high powers of powers) the value
+                # is compared relative to the size of the terms that are added up (cancellation)
+                bad = False
+                for col, w, g in zip(c['cols'], want, io['matrix']):
+                    if w == g:
+                        continue
+                    chi = chi_poly([F(v) for v in col])
+                    size = sum(abs(F(cv) * chi(k)) for k, cv in d.items())
+                    if size < 2 ** 52 or abs(F(w) - F(g)) > F(1, 10 ** 9) * size:
+                        bad = True
+                if bad:
                     ctx.violation('evaluation on a matrix of points: wrong values', {'stream': 'matrix', 'case': c, 'observed': io, 'want': want})
             except st.RefError:
                 pass
